@@ -86,7 +86,9 @@ fn history_case(tag: &'static str, i: u64, seed: u64, cfg: SnapCfg, out: &mut Ca
                 // thousands of tasks in one go
                 for _ in 0..(1000 + rng.below(4000)) {
                     counter += 1;
-                    abs.push(AbsOp::Set(rng.uuid(), "description".into(), format!("t{counter}"), ts(1)));
+                    // mostly non-ASCII text, so that multi-byte characters fall on every
+                    // buffer boundary a decoder might use
+                    abs.push(AbsOp::Set(rng.uuid(), "description".into(), format!("tâche №{counter} — 日本語のテキスト 🚀 übergrößen"), ts(1)));
                 }
             }
             for _ in 0..(1 + rng.below(5)) {
@@ -100,7 +102,13 @@ fn history_case(tag: &'static str, i: u64, seed: u64, cfg: SnapCfg, out: &mut Ca
                         let key = if rng.chance(1, 3) { hostile_string(&mut rng) } else { format!("p{}", rng.below(3)) };
                         let val = if cfg.big && rng.chance(2, 5) {
                             let mut s = format!("B{k}-{counter}-");
-                            s.extend(std::iter::repeat('y').take(300_000 + rng.below(800_000)));
+                            if rng.chance(1, 2) {
+                                s.extend(std::iter::repeat('y').take(300_000 + rng.below(800_000)));
+                            } else {
+                                // two- and three-byte characters, odd total offsets
+                                s.push_str(if rng.chance(1, 2) { "x" } else { "" });
+                                s.extend(std::iter::repeat("ÿ€").take(60_000 + rng.below(160_000)));
+                            }
                             s
                         } else if rng.chance(1, 2) {
                             hostile_string(&mut rng)
